@@ -338,3 +338,122 @@ class LabelsReaderRunLoop(Invariant):
 
     def havoc_extra(self, c, env):
         env["self"].attrs["frame_buffer"].havoc()
+
+
+# ------------------------------------------------------------- the consumer loop (bounded)
+class FrameSource:
+    """Ghost frame buffer: get() hands out the prepared frames in order, then the end marker
+    (image None) -- i.e. exactly what the producer contracts above guarantee is put."""
+
+    __pyvc_native__ = True
+
+    def __init__(self, frames):
+        self.frames = list(frames)
+        self.pos = 0
+        self.gets = 0
+
+    def get(self, block=True, timeout=None):
+        self.gets += 1
+        if self.pos < len(self.frames):
+            f = self.frames[self.pos]
+            self.pos += 1
+            return dict(f)
+        self.pos += 1
+        return {"image": None, "frame_idx": None, "video_idx": None, "orig_size": None}
+
+
+class GhostPipeline:
+    __pyvc_native__ = True
+
+    def __init__(self, frames):
+        self.frame_buffer = FrameSource(frames)
+        self.started = 0
+        self.joined = 0
+
+    def start(self):
+        self.started += 1
+
+    def join(self):
+        self.joined += 1
+
+
+class EchoModel:
+    """Ghost inference model: returns the batch it is given (so the batches are observable)."""
+
+    __pyvc_native__ = True
+
+    def __init__(self):
+        self.batches = []
+
+    def __call__(self, ex):
+        self.batches.append(dict(ex))
+        return [dict(ex)]
+
+
+@contract
+class PredictGeneratorLoop(Contract):
+    """BOUNDED: Predictor._predict_generator driven by a frame source that delivers n frames
+    (0..4) and then the end marker, batch size 1..3: frames are consumed in order, grouped into
+    consecutive batches of batch_size (last one partial), each batch carries the frame_idx /
+    video_idx / orig_size / eff_scale of exactly its frames in order, nothing is read after the
+    marker, the pipeline is started once and joined once."""
+
+    target = "sleap_nn.inference.predictors.Predictor._predict_generator"
+    props = ("C13", "C12")
+    level = "property"
+    functional = False
+    pure = False
+    no_crosscheck = True
+    no_replay = True
+    dims = ()
+    cases = tuple("n%d-b%d" % (n, b) for n in range(0, 5) for b in (1, 2, 3))
+    always_inline = ("sleap_nn.data.resizing.apply_sizematcher",)
+    bounded = ("the consumer loop is executed for 0..4 frames and batch sizes 1..3 (frame sizes, contents, indices symbolic); the frame source delivers what the reader contracts put",)
+
+    def inputs(self, c, case):
+        n, b = case.split("-")
+        n, b = int(n[1:]), int(b[1:])
+        H, W = c.dim("H", lo=1), c.dim("W", lo=1)
+        frames = []
+        for k in range(n):
+            frames.append({"image": c.tensor("image%d" % k, [1, 1, H, W], FLOAT, nan_ok=False), "frame_idx": c.int("frame_idx%d" % k), "video_idx": c.int("video_idx%d" % k),
+                           "orig_size": T.from_flat([2], [T.cast_scalar(H, FLOAT), T.cast_scalar(W, FLOAT)], FLOAT)})
+        return dict(frames=frames, batch_size=b, H=H, W=W)
+
+    def run(self, interp, a):
+        cv = interp.resolve_dotted("sleap_nn.inference.predictors.Predictor")
+        obj = Obj(cv)
+        self._pipe, self._model = GhostPipeline(a["frames"]), EchoModel()
+        obj.attrs.update(inference_model=self._model, pipeline=self._pipe, instances_key=False, preprocess=False,
+                         preprocess_config={"batch_size": a["batch_size"], "max_height": a["H"], "max_width": a["W"], "is_rgb": False, "scale": 1.0, "max_stride": 1})
+        m, _ = cv.lookup("_predict_generator")
+        return list(interp.call(m, [obj], {}))
+
+    def ensures(self, c, result, frames, batch_size, H, W):
+        n = len(frames)
+        nb = (n + batch_size - 1) // batch_size
+        got = self._model.batches
+        cl = [("PL/one-batch-per-group-of-batch_size-consecutive-frames-(last-one-partial)", len(got) == nb and len(result) == nb),
+              ("PL/nothing-is-read-after-the-end-marker", self._pipe.frame_buffer.gets == n + 1),
+              ("PL/pipeline-started-once-and-joined-once", self._pipe.started == 1 and self._pipe.joined == 1)]
+        if len(got) != nb:
+            return cl
+        for j, ex in enumerate(got):
+            mine = frames[j * batch_size:(j + 1) * batch_size]
+            fi, vi, img, eff, osz = ex.get("frame_idx"), ex.get("video_idx"), ex.get("image"), ex.get("eff_scale"), ex.get("orig_size")
+            ok_t = all(isinstance(t, STensor) for t in (fi, vi, img, eff, osz))
+            cl.append(("PL/batch%d/has-the-five-aligned-fields" % j, ok_t and list(fi.shape) == [len(mine)] and list(vi.shape) == [len(mine)] and list(eff.shape) == [len(mine)]
+                       and img.shape[0] == len(mine) and osz.shape[0] == len(mine)))
+            if not cl[-1][1]:
+                continue
+            fr, vr, er, ir = fi.reader(), vi.reader(), eff.reader(), img.reader()
+            rows = []
+            for k, f in enumerate(mine):
+                src = f["image"].reader()
+                rows.append(V.b_and(V.i_eq(fr([k]), f["frame_idx"]), V.i_eq(vr([k]), f["video_idx"]), V.f_eq(er([k]), 1.0)))
+                # the k-th image of the batch is the k-th frame's image (sizes match the
+                # configured maximum here, so the size matcher is the identity)
+                rows.append(Forall([H, W], lambda i, j_, k=k, src=src, ir=ir, rank=img.rank: V.f_same(ir([k, 0, 0, i, j_]) if rank == 5 else ir([k, 0, i, j_]), src([0, 0, i, j_]))))
+            for r_i, r in enumerate(rows):
+                cl.append(("PL/batch%d/row%d-carries-the-indices-scale-and-image-of-its-own-frame" % (j, r_i), r))
+        return cl
